@@ -79,7 +79,7 @@ def rule_R2(ck):
             acc = sym.add(acc, L[i] if deferred else sym.op("len", sym.var(f"chunk{i}", "bytes")))
         if deferred:
             lst = r.fields.get("lst") if isinstance(r, Rec) else None
-            names = [x.fields.get("name") for x in lst] if lst else None
+            names = [x.fields.get("name") if hasattr(x, "fields") else repr(x) for x in lst] if isinstance(lst, (list, tuple)) and lst else (None if not lst else repr(lst))
             if names != ["chunk0", "chunk1", "chunk2"]:
                 ck.violation(where, f".repeat returns {r!r}, expected the concatenation of the three copies in order", construct="repeat result")
         else:
